@@ -235,6 +235,101 @@ func TestVerifBounded(t *testing.T) {
 		t.Fatalf("COUNTEREXAMPLE unexpected output line %q", l)
 	}
 
+	// ---- 1d. conversions of typed constants between the numeric types: T2(T1(v)) is accepted exactly when the
+	// value (after rounding to T1) is representable in T2 (floats to integers: integral and in range), and an
+	// accepted conversion equals the run-time conversion of a T1 variable holding v
+	stmts, descr = nil, nil
+	var rejected []string
+	for _, from := range intTypes {
+		var vals []*big.Int
+		for _, k := range []int64{0, 1, -1, 127, 128, 255, 256, 65535, 65536, 16777217} {
+			vals = append(vals, big.NewInt(k))
+		}
+		for _, d := range []int64{-1, 0} {
+			for _, sh := range []uint{31, 32, 53, 63, 64} {
+				vals = append(vals, new(big.Int).Add(new(big.Int).Lsh(big.NewInt(1), sh), big.NewInt(d)))
+			}
+		}
+		vals = append(vals, from.min(), new(big.Int).Add(new(big.Int).Lsh(big.NewInt(1), 53), big.NewInt(1)), new(big.Int).Sub(new(big.Int).Lsh(big.NewInt(1), 63), big.NewInt(513)))
+		for _, v := range vals {
+			if !from.fits(v) {
+				continue
+			}
+			for _, to := range intTypes {
+				if to.name == from.name {
+					continue
+				}
+				e := fmt.Sprintf("%s(%s(%s))", to.name, from.name, v)
+				if !to.fits(v) {
+					rejected = append(rejected, "const c = "+e)
+					continue
+				}
+				id := len(descr)
+				descr = append(descr, e)
+				stmts = append(stmts, fmt.Sprintf("\t{ x%d: %s = %s; if %s != %s(x%d) { println(\"DIFF\", %d) } }", id, from.name, v, e, to.name, id, id))
+			}
+			for _, ft := range []string{"f32", "f64"} {
+				id := len(descr)
+				e := fmt.Sprintf("%s(%s(%s))", ft, from.name, v)
+				descr = append(descr, e)
+				stmts = append(stmts, fmt.Sprintf("\t{ x%d: %s = %s; if %s != %s(x%d) { println(\"DIFF\", %d) } }", id, from.name, v, e, ft, id, id))
+			}
+		}
+	}
+	flits := []string{"0.0", "1.0", "-1.0", "3.0", "255.0", "256.0", "65535.0", "65536.0", "16777216.0", "16777217.0", "16777217.0000000001", "2147483647.0", "2147483648.0", "-2147483648.0", "-2147483649.0", "4294967295.0", "4294967296.0", "9007199254740992.0", "9007199254740993.0", "9223372036854775807.0", "9223372036854775808.0", "-9223372036854775808.0", "-9223372036854777856.0", "18446744073709551615.0", "18446744073709551616.0", "1.5", "0.1", "-0.5", "0.999999999999999999999", "1e20"}
+	for _, ft := range []string{"f32", "f64"} {
+		for _, lit := range flits {
+			bf, _, err := big.ParseFloat(lit, 10, 2000, big.ToNearestEven)
+			if err != nil {
+				t.Fatal(err)
+			}
+			// the value of the typed constant ft(lit): rounded once to the type
+			var rounded *big.Float
+			if ft == "f32" {
+				f, _ := bf.Float32()
+				rounded = new(big.Float).SetPrec(2000).SetFloat64(float64(f))
+			} else {
+				f, _ := bf.Float64()
+				rounded = new(big.Float).SetPrec(2000).SetFloat64(f)
+			}
+			for _, to := range intTypes {
+				e := fmt.Sprintf("%s(%s(%s))", to.name, ft, lit)
+				iv, acc := rounded.Int(nil)
+				if acc != big.Exact || !to.fits(iv) {
+					rejected = append(rejected, "const c = "+e)
+					continue
+				}
+				id := len(descr)
+				descr = append(descr, e)
+				stmts = append(stmts, fmt.Sprintf("\t{ x%d: %s = %s; if %s != %s(x%d) { println(\"DIFF\", %d) } }", id, ft, lit, e, to.name, id, id))
+			}
+			// float to float: narrowing rounds a second time, widening is exact
+			for _, to := range []string{"f32", "f64"} {
+				id := len(descr)
+				e := fmt.Sprintf("%s(%s(%s))", to, ft, lit)
+				descr = append(descr, e)
+				stmts = append(stmts, fmt.Sprintf("\t{ x%d: %s = %s; if %s != %s(x%d) { println(\"DIFF\", %d) } }", id, ft, lit, e, to, id, id))
+			}
+		}
+	}
+	cases += len(stmts)
+	for _, l := range zzRun(t, "conversions of typed constants", stmts) {
+		var id int
+		if _, err := fmt.Sscanf(l, "DIFF %d", &id); err == nil && id < len(descr) {
+			t.Fatalf("COUNTEREXAMPLE the constant conversion %s differs from the same conversion of a variable at run time", descr[id])
+		}
+		t.Fatalf("COUNTEREXAMPLE unexpected output line %q", l)
+	}
+	for i, decl := range rejected {
+		if !thorough && i%16 != 0 {
+			continue
+		}
+		cases++
+		if _, err := LoadProgramFile(DefaultConfig(), "a.wa", decl+"\nfunc main {}\n"); err == nil {
+			t.Fatalf("COUNTEREXAMPLE %q is accepted although the value is not representable in the target type", decl)
+		}
+	}
+
 	// ---- 2. untyped integer arithmetic is exact
 	stmts, descr = nil, nil
 	var bigs []*big.Int
@@ -348,7 +443,7 @@ func TestVerifBounded(t *testing.T) {
 		// the product of a 62-bit and a small constant, folded through wider intermediates
 		check(fmt.Sprintf("const m = 1 << 62\nconst c: %s = m * 4 / 8 >> %d", ty.name, 62-int(ty.bits)+2), ty.bits >= 3)
 	}
-	fmt.Printf("BOUNDED {\"cases\": %d, \"bound\": \"typed expressions T(a) op T(b) for 8 integer types (boundary operands: 0, +-1, +-2, +-7, min, max, 2^(w/2) and neighbours; 11 operators and 4 shift counts, representable results only) and 2 float types (17 literals, 6 operators, with and without explicit conversion), each folded constant compared with run-time evaluation in one generated program; 15 f32 literals against correctly rounded conversion; untyped integer sums, differences, products and quotients of operands around 2^31..2^65 against math/big; 15-16 acceptance/rejection checks per integer type at the edge of its range\"}\n", cases)
+	fmt.Printf("BOUNDED {\"cases\": %d, \"bound\": \"typed expressions T(a) op T(b) for 8 integer types (boundary operands: 0, +-1, +-2, +-7, min, max, 2^(w/2) and neighbours; 11 operators and 4 shift counts, representable results only) and 2 float types (17 literals, 6 operators, with and without explicit conversion), each folded constant compared with run-time evaluation in one generated program; 15 f32 literals against correctly rounded conversion; untyped integer sums, differences, products and quotients of operands around 2^31..2^65 against math/big; 15-16 acceptance/rejection checks per integer type at the edge of its range; conversions T2(T1(v)) between 6 integer and 2 float types for boundary values v (powers of two and neighbours, 30 float literals incl. non-integral and double-rounding cases): accepted ones compared with the run-time conversion of a variable, the others (every 16th at the quick tier) required to be rejected\"}\n", cases)
 }
 
 func mathFloat32bits(f float32) uint32 { return math.Float32bits(f) }
